@@ -11,6 +11,11 @@ CLAIMED = {
    text="Generated-input search over factory parameters of every numeric kind with closed-form oracles (vertices, area, orientation, membership, circle band and area formula) plus an exhaustively enumerated grid of invalid arguments; shows the property on the cases explored, never its absence of violations elsewhere.",
    note="Trusted: closed forms in vlib/props/c16.py, reference geometry self-tested at start-up, CPython Fractions. One open known finding (tiny arcs are degree-reduced) is excluded by an input predicate and replayed.",
    ref="4/C16"),
+ "C02": dict(
+   technique="property-based testing (Hypothesis): generated shapes of every kind x derived query points vs reference winding number (exact crossing number / de Casteljau subdivision)",
+   text="Generated shapes of every kind, orientation, numeric type and degree 1..3 with query points aimed at the places where the implementation can go wrong (sagitta of curved segments, +-1e-2..1e-4 from the boundary, far points, vertices and on-edge points for the boundary rule); membership is compared with an independent reference. Exploration: holds on tens of thousands of (shape, point) cases per run, margins stated.",
+   note="Trusted: vlib/refgeom.py winding (self-tested), margins 1e-5 (10x the documented on-curve tolerance); points closer than that and not on the boundary are undecided, never judged.",
+   ref="4/C02"),
 }
 NOT_YET = "check not built yet in this round (planned, see DESIGN.md section 4); nothing is claimed for it"
 
